@@ -81,6 +81,16 @@ def _emit_block(doc, name, layout=None):
     return text
 
 
+def model_of_output(tag, text, out):
+    """model of a text the library RETURNED: if the harness tokenizer cannot read it, that is a finding about the
+    output (not a harness failure); returns None then"""
+    try:
+        return model_of(text)
+    except atomtab.CifError as e:
+        out.append(D(f"C20:{tag}:output-is-not-mmcif", f"the returned text cannot be tokenized: {str(e)[:120]}; it starts {text[:40]!r}"))
+        return None
+
+
 def model_of(text):
     """{category: (items, rows)} via the harness tokenizer"""
     cats = {}
@@ -202,7 +212,9 @@ def oracle(case):
             else:
                 bi, br = before[category]
                 exp_col = [r[bi.index(src)] for r in br]
-                compare_edit("copy", before, model_of(result), category, dst, exp_col, out)
+                after = model_of_output("copy", result, out)
+                if after is not None:
+                    compare_edit("copy", before, after, category, dst, exp_col, out)
             # CLI
             argv = [pin, pout, "--copy-from", src, "--copy-to", dst] + (["--category", category] if not op.get("defaults") else [])
             lib = result
@@ -252,7 +264,9 @@ def oracle(case):
                     out.append(D("C20:replace:mapping-order", "returned mapping is not in first-seen order"))
                 if len(set(mapping.values())) != len(mapping):
                     out.append(D("C20:replace:mapping-not-injective", f"{dict(mapping)}"))
-                compare_edit("replace", before, model_of(new_text), category, col, [ref[v] for v in values], out)
+                after = model_of_output("replace", new_text, out)
+                if after is not None:
+                    compare_edit("replace", before, after, category, col, [ref[v] for v in values], out)
             argv = [pin, pout, "--replace", col, "--values", alphabet] + (["--category", category] if not op.get("defaults") else [])
             lib = new_text
         # command-line tool == library
